@@ -1047,7 +1047,11 @@ impl TryFrom<&mut Peekable<Lexer>> for ParserNode {
                             // not found
                             let mut values = Vec::new();
                             loop {
-                                let next = lex.peek_any()?;
+                                // The list also ends at the end of the input, or at
+                                // something the next statement will report
+                                let Ok(next) = lex.peek_any() else {
+                                    break;
+                                };
                                 if let TokenType::Newline = next.token_type() {
                                     // consume newline
                                     lex.get_any()?;
